@@ -57,6 +57,7 @@ type Loc struct {
 	Elems Expr   // elems(slice)
 	Footprint bool // everything the callee's in-repo reach may write (computed on SSA, see frame.go)
 	Cell  Expr   // cell(ptr): the variable a pointer points to
+	When  string // `<loc> when <boolParam>`: the location is written only in calls where that boolean parameter is true
 	Src   string
 }
 
@@ -547,11 +548,11 @@ func (p *parser) parsePrimary() Expr {
 			}
 			p.expectOp(")")
 			return &ECall{Fn: "addrof", TypeArgs: []string{name}}
-		case "typeis", "zero", "cast":
-			// typeis(e, T) ; zero(T) ; cast(e, T)
+		case "typeis", "zero", "cast", "unchangedElems":
+			// typeis(e, T) ; zero(T) ; cast(e, T) ; unchangedElems(T)
 			p.expectOp("(")
 			var args []Expr
-			if t.s != "zero" {
+			if t.s != "zero" && t.s != "unchangedElems" {
 				args = append(args, p.parseExpr())
 				p.expectOp(",")
 			}
@@ -714,6 +715,10 @@ func (p *parser) parseLocs() []Loc {
 				p.fail("modifies entry must be expr.field, type T.f, elems(s), ghost g or *")
 			}
 			l.Base, l.Field = s.X, s.Name
+		}
+		if p.isId("when") {
+			p.next()
+			l.When = p.ident()
 		}
 		l.Src = p.srcBetween(a, p.p)
 		out = append(out, l)
